@@ -4,7 +4,9 @@ package impl
 
 import (
 	"reflect"
+	"unicode/utf8"
 
+	"google.golang.org/protobuf/encoding/protowire"
 	"google.golang.org/protobuf/reflect/protoreflect"
 )
 
@@ -47,5 +49,34 @@ func contract_fieldCoder(fd protoreflect.FieldDescriptor, ft reflect.Type) (mi *
 			identical(funcs, coderBytesNoZeroValidateUTF8) || identical(funcs, coderBytesNoZero)))
 	ensures(imp(specImplicitScalar(fd) && fd.Kind() == protoreflect.BytesKind,
 		identical(funcs, coderStringNoZero) || identical(funcs, coderBytesNoZero)))
+	return
+}
+
+// ---------------------------------------------------------------- repeated strings with UTF-8 validation (C13)
+
+// appendStringSliceValidateUTF8: the marshaler of a repeated string field that must hold valid
+// UTF-8 reports an error exactly when SOME element is invalid - whichever position it has.
+//
+// @ props C13
+// @ mode int
+// @ loop 1 invariant 0 <= loopIndex && loopIndex <= len(s) && forall(0, loopIndex, func(j int) bool { return utf8.ValidString(s[j]) })
+// @ loop 1 invariant len(b) >= len(old(b)) && (sameArray(b, old(b)) || freshSlice(b))
+func contract_appendStringSliceValidateUTF8(b []byte, p pointer, f *coderFieldInfo, opts marshalOptions) (r []byte, err error) {
+	requires(p.p != nil && f != nil)
+	modifiesTail(b)
+	ensures(iff(err == nil, forall(0, len(*p.StringSlice()), func(j int) bool { return utf8.ValidString((*p.StringSlice())[j]) })))
+	return
+}
+
+// consumeStringSliceValidateUTF8: an element is appended only if its bytes are valid UTF-8; an
+// invalid one is an error and leaves the slice alone.
+//
+// @ props C13
+// @ mode int
+func contract_consumeStringSliceValidateUTF8(b []byte, p pointer, wtyp protowire.Type, f *coderFieldInfo, opts unmarshalOptions) (out unmarshalOutput, err error) {
+	requires(p.p != nil)
+	modifiesAll()
+	ensures(imp(wtyp == protowire.BytesType && protowire.SpecBytesLen(b) >= 0 && !utf8.Valid(b[protowire.SpecVarintLen(b):protowire.SpecBytesLen(b)]), err != nil && len(*p.StringSlice()) == old(len(*p.StringSlice()))))
+	ensures(imp(err == nil, wtyp == protowire.BytesType && out.n == protowire.SpecBytesLen(b) && utf8.Valid(b[protowire.SpecVarintLen(b):protowire.SpecBytesLen(b)]) && len(*p.StringSlice()) == old(len(*p.StringSlice()))+1))
 	return
 }
